@@ -81,6 +81,7 @@ class Inst:
         self.spans_reload = False
         self.opaque = False     # live across a reload that changed the service table: see World.reconfig()
         self.opaque_pw = False  # a password arrived while opaque: its meaning (hence the mode state) is unknown
+        self.stamp_uncertain = False    # a service changed from one known protocol to another while this instance was live
         self.illshaped = []     # texts of ill-shaped passwords (never to be forwarded)
         self.chal_texts = []
 
@@ -171,12 +172,18 @@ class World:
         self.cfg["services"] = dict(services)
         self.cfg["rules"] = rules
         new = self.services()
+        # a name that now has another *known* protocol than the one it was last known with: whether an account it
+        # vouches still counts as a stamp for a client that is half-way through is open.  A removed or mis-typed
+        # entry keeps the protocol it had (the module keeps the record while it is referenced).
+        retyped = set(n for n in new if n in self.svc_type and self.svc_type[n] != new[n])
         self.svc_type.update(new)
         changed = set(n for n in set(old) | set(new) if old.get(n) != new.get(n))
         for i in self.live.values():
             i.spans_reload = True
             if changed:
                 i.opaque = True
+            if retyped:
+                i.stamp_uncertain = True
         self.probe("reload_tables")
         if changed:
             self.probe("reload_tables_changed_services")
@@ -716,12 +723,16 @@ class World:
         acct = g.get("account") if cmd == "R" else None
         if i.opaque:
             self.probe("opaque_accept")
+        if i.stamp_uncertain:
+            self.probe("accept_with_uncertain_stamp")
         elif cmd == "R":
+            # (also for an instance that was live across a change of the service table, as long as no service
+            # changed from one known protocol to another: which replies vouch an account is then still determined)
             if not i.vouched:
                 self.v(("C05", "C04"), "stamp-not-vouched", "client %d reported with account %r that no awaited login service vouched for it" % (cid, acct))
             elif acct not in i.vouched:
                 self.v("C05", "stamp-wrong", "client %d reported with account %r; vouched: %r" % (cid, acct, i.vouched))
-            if i.asked_x_at_vouch and not i.mx_seen:
+            if i.asked_x_at_vouch and not i.mx_seen and not i.opaque_pw:
                 self.v("C05", "no-hidden-host", "client %d asked for host hiding and got an account but no +x was sent" % cid)
         else:
             if i.vouched:
